@@ -64,7 +64,7 @@ CaseSpace == {x \in {[s |-> s, hold |-> h, late |-> FALSE, design |-> d] : s \in
 VARIABLES c,
           tm,                 \* what c.timer refers to: "nil", "armed", "fired", "stopped"
           tk, nt, first,      \* the tick: "none", "chk", "enq", "err", "arm"; ticks started; the tick is Start's own call
-          q, out, ag,         \* keep-alives in the send queue; on the wire unanswered; agency "cli" / "srv"
+          q, out, ag, seen,   \* keep-alives in the send queue; on the wire unanswered; agency "cli" / "srv"; the first one reached the wire
           pi, wire, eof,      \* peer: next step; replies written and not yet read by the muxer; peer closed
           inbox, reg,         \* replies handed to the protocol; registered with the muxer
           stopped, mux, g, done,
@@ -72,7 +72,7 @@ VARIABLES c,
           uc, drain, stopret  \* user: Close "no" / "in" / "ret"; reads ErrorChan; Stop() returned
 
 connV == <<perr, merr, fP, fM, sh, closeSig, connClosed, errClosed>>
-vars == <<c, tm, tk, nt, first, q, out, ag, pi, wire, eof, inbox, reg, stopped, mux, g, done, connV, uc, drain, stopret>>
+vars == <<c, tm, tk, nt, first, q, out, ag, seen, pi, wire, eof, inbox, reg, stopped, mux, g, done, connV, uc, drain, stopret>>
 
 S == c.s
 Repaired == c.design = "repaired"
@@ -84,7 +84,7 @@ StateAlive == ~(stopped \/ done)
 Init ==
     /\ c \in CaseSpace
     /\ tm = "nil" /\ tk = "chk" /\ nt = 0 /\ first = TRUE
-    /\ q = 0 /\ out = 0 /\ ag = "cli"
+    /\ q = 0 /\ out = 0 /\ ag = "cli" /\ seen = FALSE
     /\ pi = 1 /\ wire = <<>> /\ eof = c.late
     /\ inbox = <<>> /\ reg = ~c.late
     /\ stopped = FALSE /\ mux = (IF c.late THEN "down" ELSE "up")
@@ -96,7 +96,7 @@ Init ==
     /\ fP = (IF c.late THEN "exit" ELSE "wait") /\ fM = (IF c.late THEN "exit" ELSE "wait")
     /\ sh = (IF c.late THEN "exit" ELSE "wait")
     /\ closeSig = c.late /\ connClosed = c.late /\ errClosed = c.late
-    /\ uc = "no" /\ drain = c.late /\ stopret = FALSE
+    /\ uc = "no" /\ drain = TRUE /\ stopret = FALSE     \* the user reads ErrorChan all the time (the adverse order is ClientApi.tla's)
 
 --------------------------------------------------------------------------
 (* the tick: sendKeepAlive *)
@@ -105,7 +105,7 @@ CleanupGone == ~g["cleanup"]
 \* hold = "tick": the first timer-fired tick stays between the two selects of enqueueMessage until the clean-up has run
 Held == c.hold = "tick" /\ ~first /\ nt = 1 /\ tk = "enq" /\ ~CleanupGone
 
-TickFrame == UNCHANGED <<c, pi, wire, eof, inbox, reg, mux, g, done, merr, fP, fM, sh, closeSig, connClosed, errClosed, uc, drain, stopret>>
+TickFrame == UNCHANGED <<c, seen, pi, wire, eof, inbox, reg, mux, g, done, merr, fP, fM, sh, closeSig, connClosed, errClosed, uc, drain, stopret>>
 
 TChk ==
     /\ tk = "chk"
@@ -122,7 +122,7 @@ TErr ==
     /\ IF stopped \/ done THEN UNCHANGED <<stopped, perr, reg>>
        ELSE stopped' = TRUE /\ perr' = TRUE /\ reg' = FALSE
     /\ tk' = "arm"
-    /\ UNCHANGED <<c, tm, nt, first, q, out, ag, pi, wire, eof, inbox, mux, g, done, merr, fP, fM, sh, closeSig, connClosed, errClosed, uc, drain, stopret>>
+    /\ UNCHANGED <<c, seen, tm, nt, first, q, out, ag, pi, wire, eof, inbox, mux, g, done, merr, fP, fM, sh, closeSig, connClosed, errClosed, uc, drain, stopret>>
 \* startTimer (under the timer mutex)
 TArm ==
     /\ tk = "arm"
@@ -144,7 +144,7 @@ Exit(n) == g' = [g EXCEPT ![n] = FALSE]
 
 SLSend ==
     /\ g["send"] /\ ~stopped /\ g["recv"] /\ ag = "cli" /\ q > 0
-    /\ q' = q - 1 /\ out' = out + 1 /\ ag' = "srv"
+    /\ q' = q - 1 /\ out' = out + 1 /\ ag' = "srv" /\ seen' = TRUE
     /\ UNCHANGED <<inbox, reg, stopped, g, done, perr>> /\ EngFrame
 \* recvLoop takes a reply; the handler only compares the cookie (no push, no callback)
 RLTake ==
@@ -152,22 +152,22 @@ RLTake ==
     /\ inbox' = Tail(inbox)
     /\ IF Head(inbox) = "ok" THEN ag' = "cli" /\ UNCHANGED <<stopped, perr, reg>>
        ELSE stopped' = TRUE /\ perr' = TRUE /\ reg' = FALSE /\ UNCHANGED ag
-    /\ UNCHANGED <<q, out, g, done>> /\ EngFrame
-RLExit == g["recv"] /\ (stopped \/ mux = "down" \/ ~g["send"]) /\ Exit("recv") /\ UNCHANGED <<q, out, ag, inbox, reg, stopped, done, perr>> /\ EngFrame
-SLExit == g["send"] /\ (stopped \/ ~g["recv"]) /\ Exit("send") /\ UNCHANGED <<q, out, ag, inbox, reg, stopped, done, perr>> /\ EngFrame
-Closer == g["closer"] /\ ~g["recv"] /\ ~g["send"] /\ Exit("closer") /\ done' = TRUE /\ UNCHANGED <<q, out, ag, inbox, reg, stopped, perr>> /\ EngFrame
+    /\ UNCHANGED <<q, out, g, done, seen>> /\ EngFrame
+RLExit == g["recv"] /\ (stopped \/ mux = "down" \/ ~g["send"]) /\ Exit("recv") /\ UNCHANGED <<q, out, ag, seen, inbox, reg, stopped, done, perr>> /\ EngFrame
+SLExit == g["send"] /\ (stopped \/ ~g["recv"]) /\ Exit("send") /\ UNCHANGED <<q, out, ag, seen, inbox, reg, stopped, done, perr>> /\ EngFrame
+Closer == g["closer"] /\ ~g["recv"] /\ ~g["send"] /\ Exit("closer") /\ done' = TRUE /\ UNCHANGED <<q, out, ag, seen, inbox, reg, stopped, perr>> /\ EngFrame
 \* the clean-up goroutine: stops whatever timer is current (under the timer mutex) and goes
 Cleanup ==
     /\ g["cleanup"] /\ done                   \* TArm and this step are atomic: both run under the timer mutex
     /\ Exit("cleanup")
     /\ tm' = IF tm = "armed" THEN "stopped" ELSE tm
-    /\ UNCHANGED <<c, tk, nt, first, q, out, ag, pi, wire, eof, inbox, reg, stopped, mux, done, connV, uc, drain, stopret>>
+    /\ UNCHANGED <<c, tk, nt, first, q, out, ag, seen, pi, wire, eof, inbox, reg, stopped, mux, done, connV, uc, drain, stopret>>
 Engine == SLSend \/ RLTake \/ RLExit \/ SLExit \/ Closer \/ Cleanup
 
 --------------------------------------------------------------------------
 (* the connection *)
 
-ConnFrame == UNCHANGED <<c, tm, tk, nt, first, q, out, ag, pi, eof, stopped, g, done, uc, drain, stopret>>
+ConnFrame == UNCHANGED <<c, tm, tk, nt, first, q, out, ag, seen, pi, eof, stopped, g, done, uc, drain, stopret>>
 \* muxer.readLoop: a segment for a protocol that is not registered, or EOF, ends the muxer
 MuxRead ==
     /\ mux = "up"
@@ -191,9 +191,11 @@ Library == Tick \/ Fire \/ Engine \/ Connection
 --------------------------------------------------------------------------
 (* the peer and the user *)
 
-EnvFrame == UNCHANGED <<c, tm, tk, nt, first, q, ag, inbox, mux, g, done, perr, merr, fP, fM, sh, connClosed, errClosed>>
+EnvFrame == UNCHANGED <<c, tm, tk, nt, first, q, ag, seen, inbox, mux, g, done, perr, merr, fP, fM, sh, connClosed, errClosed>>
 \* hold = "tick": the environment waits until the tick is at the gate
-GateReady == c.hold = "tick" => (nt >= 1 /\ (tk = "enq" \/ CleanupGone))
+\* and in every case until the first keep-alive has reached the peer (the driver waits for it before it plays anything)
+GateReady == /\ c.late \/ seen
+             /\ c.hold = "tick" => (nt >= 1 /\ (tk = "enq" \/ CleanupGone))
 \* the user's Stop and Close may come at any moment (the driver aims at a moment of rest, but cannot be sure of it)
 
 Env ==
@@ -233,7 +235,7 @@ Spec == Init /\ [][Next]_vars
 
 TypeOK ==
     /\ tm \in {"nil", "armed", "fired", "stopped"} /\ tk \in {"none", "chk", "enq", "err", "arm"}
-    /\ nt \in 0..MaxTicks /\ q \in 0..(MaxTicks + 1) /\ out \in 0..1 /\ ag \in {"cli", "srv"}
+    /\ seen \in BOOLEAN /\ nt \in 0..MaxTicks /\ q \in 0..(MaxTicks + 1) /\ out \in 0..1 /\ ag \in {"cli", "srv"}
     /\ mux \in {"up", "down"} /\ uc \in {"no", "in", "ret"}
     /\ fP \in {"wait", "send", "closing", "exit"} /\ fM \in {"wait", "send", "closing", "exit"} /\ sh \in {"wait", "wg", "exit"}
 
